@@ -1,39 +1,55 @@
 ------------------------------ MODULE BSplineEval ------------------------------
 (* C02 -- B-spline basis evaluation.
 
-   State space: root -> one state per open knot vector of degree P (breakpoints in 0..BMax, gaps <= MaxGap,
-   <= MaxSpans spans, interior multiplicities 1..min(MaxMult, max(P,1))) -> one state per (knot vector, sample
-   point): every breakpoint, both ends, the midpoint and the quarter points of every span.
+   State space: root -> one state per (degree, open knot vector) of the tier's profile (breakpoints 0 = b0 < b1 < ..
+   on the integer grid, gaps <= 4, every pattern of interior multiplicities 1..max(p,1)) -> one state per (knot
+   vector, sample point): every breakpoint, both ends, the midpoint and the quarter points of every span.
 
-   Checked on every (kv, u) state, derivative orders 0..P+Extra:
-     reference (module BSplineRef):  non-negativity, partition of unity, derivative sums zero, orders > P vanish,
-       support inside first_active..first_active+P and all P+1 active functions positive inside a span,
-       row tables = Cox--de Boor / derivative recursion (CheckRec), one-sided limits consistent with continuity class;
-     code-shaped model A23 (a transcription of bspline_active_deriv_single, NURBS-book A2.3, bspline_cy.pyx:42-120, in
-       exact arithmetic with "poison" for garbage reads):  for ND <= P every entry is defined and equals the reference;
-       with ND > P the table is read out of range (negative control: A23Defined must be violated).
-   Checked on every kv state: knot insertion and two-level prolongation reproduce every basis function.
-   Emits one PT record per (kv, u) with the expected rationals.                                                     *)
+   Checked on every (kv, u) state (invariant PtOK), derivative orders 0..p+Extra:
+     reference (module BSplineRef):  non-negativity, partition of unity, derivative sums zero, orders > p vanish,
+       support inside first_active..first_active+p, all p+1 active functions positive inside a span, row tables =
+       Cox--de Boor / derivative recursion, one-sided limits from the left consistent with the continuity class;
+     code-shaped model A23: a transcription of bspline_active_deriv_single (NURBS-book A2.3, bspline_cy.pyx:42-120) in
+       exact arithmetic, where uninitialised memory, out-of-range table reads and x/0 are "poison": with
+       numderiv = p+Extra every entry is defined (so the kernel never reads NDU out of range, also for orders > p)
+       and equals the reference.  Mut = 1 is an off-by-one mutant (`if r < pk` for `if r <= pk`; negative control).
+   Checked on every kv state (KvOK): the enumerated objects are open knot vectors; Greville abscissae; mesh supports;
+     Boehm knot insertion and the two-level prolongation matrix reproduce every basis function, rows sum to one.
+   Emits one PT record per (kv, u) with the expected rationals (active window per order, one-sided limits).        *)
 EXTENDS BSplineRef, TLC, Emit
 
-CONSTANTS P,          \* degree
-          BMax, MaxGap, MaxSpans, MaxMult,
-          Extra,      \* derivative orders 0..P+Extra are tabulated
-          ND,         \* numderiv passed to the A23 model (normally P; P+1 for the negative control)
-          CheckRec,   \* compare tables with the recursive definitions (exponential in P)
-          CheckIns,   \* knot insertion / prolongation invariants on kv states
+CONSTANTS Tier,       \* "quick" | "thorough" | "neg": the enumeration bounds per degree (Profiles below)
+          Degrees,    \* the degrees of the profile explored by this run (lets a tier be split over several TLC runs)
+          Extra,      \* derivative orders 0..p+Extra are tabulated; the A23 model is run with numderiv = p+Extra
+          Mut,        \* 0; 1 = off-by-one mutant of the A23 model (negative control: PtOK must be violated)
           DoEmit
 
-VARIABLES ph, kv, u
-vars == <<ph, kv, u>>
+(* per degree: breakpoints in 0..bmax, at most `spans` spans, interior multiplicities <= min(mmult, max(p,1));
+   rec: compare the row tables with the recursive definitions for 0 = no, 1 = the functions around the active window,
+   2 = all functions; ins: check knot insertion / prolongation on the knot-vector states *)
+Prof(pp, bmax, spans, mmult, rec, ins) == [p |-> pp, bmax |-> bmax, spans |-> spans, mmult |-> mmult, rec |-> rec, ins |-> ins]
+Profiles ==
+  CASE Tier = "quick"    -> <<Prof(0, 4, 4, 9, 2, TRUE), Prof(1, 4, 4, 9, 2, TRUE), Prof(2, 4, 3, 9, 2, TRUE), Prof(3, 4, 3, 9, 1, TRUE)>>
+    [] Tier = "thorough" -> <<Prof(0, 6, 6, 9, 2, TRUE), Prof(1, 6, 6, 9, 2, TRUE), Prof(2, 6, 5, 9, 2, TRUE), Prof(3, 6, 4, 9, 1, TRUE),
+                              Prof(4, 6, 3, 9, 1, TRUE), Prof(5, 5, 3, 9, 0, FALSE)>>
+    [] Tier = "neg"      -> <<Prof(0, 3, 2, 9, 0, FALSE), Prof(1, 3, 2, 9, 0, FALSE), Prof(2, 3, 2, 9, 0, FALSE), Prof(3, 3, 2, 9, 0, FALSE)>>
+PF(pp) == Profiles[pp + 1]
 
-KVS == OpenKVs(P, BMax, MaxGap, MaxSpans, MaxMult)
+VARIABLES ph, deg, kv, u
+vars == <<ph, deg, kv, u>>
 
-Init == ph = "root" /\ kv = <<>> /\ u = Zero
-PickKV == ph = "root" /\ \E v \in KVS : kv' = v /\ ph' = "kv" /\ u' = Zero
-PickPt == ph = "kv" /\ \E pt \in SeqSet(SamplePoints(kv)) : u' = pt /\ ph' = "pt" /\ kv' = kv
+KVS(pp) == OpenKVs(pp, PF(pp).bmax, 4, PF(pp).spans, PF(pp).mmult)
+
+Init == ph = "root" /\ deg = 0 /\ kv = <<>> /\ u = Zero
+PickKV == ph = "root" /\ \E pp \in Degrees : \E v \in KVS(pp) : deg' = pp /\ kv' = v /\ ph' = "kv" /\ u' = Zero
+PickPt == ph = "kv" /\ \E pt \in SeqSet(SamplePoints(kv)) : u' = pt /\ ph' = "pt" /\ UNCHANGED <<deg, kv>>
 Next == PickKV \/ PickPt
 Spec == Init /\ [][Next]_vars
+
+P        == deg
+ND       == deg + Extra
+CheckRec == PF(deg).rec
+CheckIns == PF(deg).ins
 
 -------------------------------------------------------------------------------
 (* code-shaped model of bspline_active_deriv_single *)
@@ -75,7 +91,7 @@ A23StepK(T, r, st, k) ==     \* lines 93-119: body of the loop over k for basis 
               LET v == PDiv(PSub(st.a1[j], st.a1[j - 1]), RdN(T, pk + 1, rk + j))
               IN [a2 |-> [s.a2 EXCEPT ![j] = v], d |-> PAdd(s.d, PMul(v, RdN(T, rk + j, pk)))],
               s0, Interval(j1, j2))
-      s2 == IF r <= pk
+      s2 == IF (IF Mut = 1 THEN r < pk ELSE r <= pk)      \* Mut = 1: `r < pk` (negative control)
             THEN LET v == PDiv(PNeg(st.a1[k - 1]), RdN(T, pk + 1, r))
                  IN [a2 |-> [s1.a2 EXCEPT ![k] = v], d |-> PAdd(s1.d, PMul(v, RdN(T, r, pk)))]
             ELSE s1
@@ -122,15 +138,13 @@ PtOK ==
               /\ SumSeq(LT[k + 1]) = (IF k = 0 THEN One ELSE Zero)
               /\ \A i \in 1..n : ~IsZero(LT[k + 1][i]) => (i - 1) \in lfirst..(lfirst + P)
      \* code-shaped model
-     /\ \A k \in 0..IntMin(ND, P) : \A r \in 0..P : ~IsP(model[k + 1][r + 1]) => model[k + 1][r + 1] = T[k + 1][first + r + 1]
+     /\ \A k \in 0..ND : \A r \in 0..P : ~IsP(model[k + 1][r + 1]) /\ model[k + 1][r + 1] = T[k + 1][first + r + 1]
      /\ DoEmit =>
           Emit("PT", [kv |-> kv, p |-> P, u |-> u, span |-> Span(kv, u), first |-> first, bp |-> bp,
                       mult |-> IF bp THEN KMult(kv, u[1]) ELSE 0,
                       D |-> [k \in 1..(MaxK + 1) |-> ActiveWindow(T[k], first, P)],
                       lfirst |-> lfirst,
                       L |-> IF left THEN [k \in 1..(P + 1) |-> ActiveWindow(LT[k], lfirst, P)] ELSE <<>>])
-
-A23Defined == ph = "pt" => LET model == A23 IN \A k \in 0..ND : \A r \in 0..P : ~IsP(model[k + 1][r + 1])
 
 -------------------------------------------------------------------------------
 (* invariants on kv states: the enumerated objects are open knot vectors; Boehm insertion and prolongation *)
